@@ -117,6 +117,10 @@ def run(rep, tier, root=None):
             rep.check(lag is not None and lag.equals(loopvar), "T1.lag-index", f.fq + ": sf[j] holds lag j*step",
                       "value for lag %s is stored at index %s (index*step = %s)" % (nf(loopvar), nf(idx), nf(lag)), "%s:%d" % (f.module.relpath, lineno))
             want = IO.returns(fo, [phase, loopvar])[0][1]
+            # mean(x) == sum(x)/x.size == sum(x)/(n0*n1): one normal form for the spellings of an average (phase is 2-D)
+            from ..elem import expand_means
+            val = expand_means(val, {"phase": 2})
+            want = expand_means(want, {"phase": 2})
             check_equal(rep, "T1.lag-definition", f.fq + ": mean((phase[:-i] - phase[i:])**2)", val, want,
                         "%s:%d" % (f.module.relpath, lineno), what="stored value")
             check_degree(rep, "T3.quadratic", f.fq + " ~ phase^2", val, "phase", Fr(2), f.where(), "structure function value")
@@ -186,6 +190,9 @@ def run(rep, tier, root=None):
                 t_spec2 = t_spec.subst(lambda a: nfr if a == nsub else None)
                 rep.check(same_value(t_axis, t_spec2), "T5.same-truncation", "spectrum and frequency axis keep the same bins",
                           "spectrum keeps %s bins, axis %s" % (nf(t_spec2), nf(t_axis)), h.where())
+    from ..common import purity_obligations
+    purity_obligations(rep, ix, [ix.func(SC, "calculate_structure_function"), ix.func(TP, "calc_slope_temporalps"), ix.func(TP, "get_tps_time_axis")],
+                       "T6.pure", "the estimate would depend on earlier calls or change the data it is computed from")
     rep.floor("C19 obligations", len(rep.obligations), 9)
 
 
